@@ -38,8 +38,8 @@ type c06State struct {
 	// diagnosis only (makes violation signatures specific): delegators of the validator slashed at
 	// the start of the current block for which BalanceDelegator, tried on a cache context right
 	// after the slash, returned an error (HandleSlashedValidators ignores such errors)
-	slashBalErr  map[string]string
-	slashHeight  int64 // height of the block whose start performed the slash
+	slashBalErr map[string]string
+	slashHeight int64 // height of the block whose start performed the slash
 	// diagnosis only: delegators whose redelegation from the slashed validator was slashed (forced
 	// unbond at the destination validator) while the hook-disable flag of the previous transaction
 	// was still set
@@ -1160,6 +1160,6 @@ func init() {
 	AddOp("c06_slash", (*Sim).opC06Slash)
 	simrt.Register("C06", &simrt.PropSpec{Fn: runC06, NonTrivial: c06NonTrivial,
 		Rule: "tape-generated histories interleaving staking-module Delegate/Undelegate/BeginRedelegate/CancelUnbondingDelegation/CreateValidator/Unjail with dual-staking Delegate/Redelegate/Unbond/ClaimRewards and pairing Stake/Modify/MoveStake/Unstake (amounts mostly picked from what the actor really holds), multi-message transactions, and validator slashes (fraction, infraction height in the past, optional jail; in some blocks two or three different validators are slashed, as with correlated downtime or several pieces of evidence) executed at the start of a block before dualstaking's BeginBlock; every transaction first passes the real redelegation ante flagger. After every transaction and every block, for every account with a delegation on either side: |sum of provider delegations incl. empty provider - sum of token value of validator shares| <= (validators used + share-moving events on those validators since the delegator was last exactly balanced); no provider delegation negative; VerifyDelegatorBalance agrees with the independent computation up to rounding. Non-trivial = >=12 accepted operations incl. >=2 staking-module and >=2 dual-staking delegation changes and a provider stake",
-		Real:    chainReal, Stubbed: chainStub,
+		Real: chainReal, Stubbed: chainStub,
 		Assume: append(append([]string{}, chainAssume...), "validator slashes/jails are injected by calling the real x/slashing keeper at the start of a block (the position of x/slashing and x/evidence in the app's begin-blocker order, before dualstaking); CometBFT evidence and missed-signature tracking are not simulated", "slash contract respected: validator not unbonded, infraction height within the unbonding period and not in the future")})
 }
